@@ -487,7 +487,10 @@ def otf_products_origin(run, db):
                 nfft = [e['which'] for e in p.events if e['kind'] == 'fft']
                 decided += 1
                 run.check(d.o == ohalf(parity) and (d.r.is_zero() or kind == 'abs'), 'C15.dc', fi.qual, 'DC position [%s]' % par, 'the zero-frequency sample of %s sits at n//2 for %s sizes' % (nm, par),
-                          '%s returns an array whose zero-frequency sample sits at index %r for %s sizes, expected n//2 = %r (MTF != 1 there, and the product is not point-symmetric about n//2)' % (nm, d.o, par, ohalf(parity)), fi.loc())
+                          ('%s returns an array whose zero-frequency sample sits at index %r for %s sizes, expected n//2 = %r (MTF != 1 there, and the product is not point-symmetric about n//2)' % (nm, d.o, par, ohalf(parity)))
+                          if d.o != ohalf(parity) else
+                          ('%s has its zero-frequency sample at n//2 but carries a linear phase ramp for %s sizes: the transform was taken of an array whose origin had not been moved to index 0 '
+                           '(the value at every sample but DC is multiplied by a phase; OTF != MTF exp(i PTF))' % (nm, par)), fi.loc())
                 how = note.get('dcn')
                 run.check(how in ('div', 'sub'), 'C15.dc', fi.qual, 'DC normalisation [%s]' % par, '%s is normalised by its own zero-frequency sample [%s]' % (nm, par),
                           '%s is %s for %s sizes' % (nm, {None: 'not normalised by any sample', 'not-dc': 'normalised by a sample that is not its zero-frequency sample', 'foreign': "normalised by another array's sample",
@@ -510,7 +513,13 @@ def otf_rules(run, db):
             return orig(dotted, args, kwargs, node)
         dom.call_ext = hasattr_hook
         it = Interp(db, dom)
-        res = [p for p in it.run(f, kwargs=lambda: {'psf': dom.centred(), 'dx': Real()}) if p.outcome == 'return']
+        # optional flags the routine may have grown keep the value their default gives them (the documented behaviour is the default one)
+        flags = {}
+        a_ = f.node.args
+        for p_, d_ in zip([x.arg for x in a_.args][len(a_.args) - len(a_.defaults):], a_.defaults):
+            if p_ not in ('psf', 'dx') and isinstance(d_, ast.Constant) and isinstance(d_.value, (bool, type(None), str)):
+                flags[p_] = Const(d_.value)
+        res = [p for p in it.run(f, kwargs=lambda: dict({'psf': dom.centred(), 'dx': Real()}, **flags)) if p.outcome == 'return']
         if len(res) != 1:
             raise AnalysisError('transform_psf: expected one path, got %d' % len(res))
         v = res[0].value
@@ -596,6 +605,9 @@ def _otf_products_norm(run, db):
                 quot = X / Rat(Rn.atom(a))
                 want = Rat(Rn.func('angle', [quot])) if kind == 'angle' else quot
                 if own and from_shape and got == want:
+                    ok = True
+                # |D / D[c]| is |D| / |D[c]|: the modulus may be taken after the normalisation as well as before
+                if kind == 'abs' and isinstance(arr, Rat) and arr == D and from_shape and got == Rat(Rn.func('abs', [D / Rat(Rn.atom(a))])):
                     ok = True
         run.check(ok, 'C15.dc', fi.qual, 'DC normalisation', '%s == %s of the transform divided by its own sample at an index computed from the shape'
                   % (nm, {'abs': 'modulus', 'angle': 'angle', 'value': 'value'}[kind]),
